@@ -601,6 +601,9 @@ func checkReceiveLoopExits(p *Prog, r *Report) {
 			if as, isA := x.(*ast.AssignStmt); isA {
 				for _, l := range as.Lhs {
 					if id, isId := l.(*ast.Ident); isId && (p.Info.Uses[id] == ev || p.Info.Defs[id] == ev) {
+						if selfWrap(p, as, ev) {
+							continue // err = wrap(err): still the read's error
+						}
 						nAs++
 					}
 				}
@@ -941,4 +944,35 @@ func checkReceiveBuffersPrivate(p *Prog, r *Report) {
 	if n == 0 {
 		r.bad("C06.I9", "receive loops", "-", "receive buffers", "no socket read found", "")
 	}
+}
+
+// selfWrap: as is `v = f(v)` with f a function of another package and no other variable among the arguments.
+func selfWrap(p *Prog, as *ast.AssignStmt, v *types.Var) bool {
+	if len(as.Lhs) != 1 || len(as.Rhs) != 1 {
+		return false
+	}
+	call, ok := ast.Unparen(as.Rhs[0]).(*ast.CallExpr)
+	if !ok {
+		return false
+	}
+	f := p.Callee(call)
+	if f == nil || f.Pkg() == nil || f.Pkg() == p.Types {
+		return false
+	}
+	only, some := true, false
+	for _, arg := range call.Args {
+		ast.Inspect(arg, func(x ast.Node) bool {
+			if id, ok := x.(*ast.Ident); ok {
+				if o, isV := p.Info.Uses[id].(*types.Var); isV {
+					if o == v {
+						some = true
+					} else {
+						only = false
+					}
+				}
+			}
+			return true
+		})
+	}
+	return only && some
 }
